@@ -1,0 +1,10 @@
+//go:build verif
+// +build verif
+
+package flate
+
+import "github.com/intel/fastgo/compress/flate/internal/deflate"
+
+// VerifSetCompressorTrace installs (or, with nil, removes) the receiver of the
+// compressor's mechanism events (verif builds only). Not safe for concurrent use.
+func VerifSetCompressorTrace(f func(ev string, a, b, c, d int)) { deflate.VerifTrace = f }
